@@ -20,6 +20,7 @@ from schema_util import (
     Inst,
     Loader,
     Other,
+    FloatX,
     cassoc,
     cval,
     render_call,
@@ -358,6 +359,8 @@ def jv(v):
         return {"ExperimentInstance": {k: jv(x) for k, x in v.fields.items()}}
     if isinstance(v, Other):
         return {"python": v.src}
+    if isinstance(v, FloatX):
+        return {"floatx": v.src}
     if isinstance(v, tuple):
         return {"tuple": [jv(x) for x in v]}
     if isinstance(v, list):
@@ -374,6 +377,8 @@ def uv(v):
             return Inst(**{k: uv(x) for k, x in v["ExperimentInstance"].items()})
         if "python" in v:
             return Other(v["python"])
+        if "floatx" in v:
+            return FloatX(v["floatx"])
         if "tuple" in v:
             return tuple(uv(x) for x in v["tuple"])
         if "dict" in v:
